@@ -804,5 +804,93 @@ def index_edit(ctx):
     return res
 
 
-RULES = [index_edit, c17_coating_media, c01_init_stores, c01_pickup, operand_chain, apply_result, push_before_run, undo_updates, merit, scale_inverse,
+def bounds_honoured(ctx):
+    """'every bounded variable lies within its bounds' when OptimizerGeneric
+    returns: scipy.optimize.minimize ignores bounds for some methods and only
+    warns (the warning category is silenced around the call), so the front
+    end must refuse those methods when a variable is bounded.  The set of
+    methods is read from the installed scipy's own source on every run."""
+    import os
+    import scipy.optimize as so
+    P = ctx.P
+    res = Result('BOUNDS-HONOURED', 'OptimizerGeneric never runs a scipy '
+                 'method that ignores bounds on a problem with bounded '
+                 'variables')
+    path = os.path.join(os.path.dirname(so.__file__), '_minimize.py')
+    tree = ast.parse(open(path).read())
+    allm, supported = None, None
+    for n in ast.walk(tree):
+        if isinstance(n, ast.Assign) and len(n.targets) == 1 and \
+                unparse(n.targets[0]) == 'MINIMIZE_METHODS':
+            allm = {e.value.lower() for e in n.value.elts}
+        if isinstance(n, ast.If) and 'cannot handle bounds' in \
+                unparse(n.body[0]) and isinstance(n.test, ast.BoolOp):
+            for c in n.test.values:
+                if isinstance(c, ast.Compare) and isinstance(
+                        c.ops[0], ast.NotIn) and unparse(c.left) == 'meth':
+                    supported = {e.value for e in c.comparators[0].elts}
+    if not allm or not supported:
+        raise AnalysisError('scipy _minimize.py: method tables not found')
+    required = allm - supported
+    res.ok(f'scipy {so.__name__}: methods that ignore bounds = '
+           f'{sorted(required)}')
+    f = P.func('OptimizerGeneric.optimize')
+    res.saw(f)
+    cls = P.classes['OptimizerGeneric']
+    consts = {}
+    for st in cls.node.body:
+        if isinstance(st, ast.Assign) and isinstance(st.targets[0], ast.Name) \
+                and isinstance(st.value, (ast.Tuple, ast.List, ast.Set)):
+            consts[st.targets[0].id] = {
+                e.value for e in st.value.elts
+                if isinstance(e, ast.Constant)}
+    mins = [c for c in ast.walk(f.node) if isinstance(c, ast.Call) and
+            unparse(c.func).endswith('optimize.minimize')]
+    if not mins:
+        raise AnalysisError('OptimizerGeneric.optimize: minimize not found')
+    passes_method = any(k.arg == 'method' and unparse(k.value) == 'method'
+                        for k in mins[0].keywords)
+    passes_bounds = any(k.arg == 'bounds' for k in mins[0].keywords)
+    guard = None
+    for n in ast.walk(f.node):
+        if not (isinstance(n, ast.If) and n.lineno < mins[0].lineno and
+                any(isinstance(b, ast.Raise) for b in n.body)):
+            continue
+        for c in ast.walk(n.test):
+            if isinstance(c, ast.Compare) and len(c.ops) == 1 and \
+                    'method' in unparse(c.left):
+                coll = c.comparators[0]
+                vals = None
+                if isinstance(coll, (ast.Tuple, ast.List, ast.Set)):
+                    vals = {e.value for e in coll.elts
+                            if isinstance(e, ast.Constant)}
+                elif isinstance(coll, ast.Attribute) and coll.attr in consts:
+                    vals = consts[coll.attr]
+                elif isinstance(coll, ast.Name) and coll.id in consts:
+                    vals = consts[coll.id]
+                if vals is None:
+                    continue
+                lower = '.lower()' in unparse(c.left)
+                if isinstance(c.ops[0], ast.In) and required <= vals and lower:
+                    guard = n
+                if isinstance(c.ops[0], ast.NotIn) and lower and \
+                        vals <= supported | {'none'}:
+                    guard = n
+    if not (passes_method and passes_bounds):
+        res.ok('the method / bounds are not handed on as given')
+    elif guard is not None:
+        res.ok('a bounded problem with a method that ignores bounds raises '
+               'before the solver runs')
+    else:
+        res.fail(ctx.finding(
+            'BOUNDS-HONOURED', f, mins[0],
+            f'optimize(method=...) hands any method to scipy together with '
+            f'the bounds; for {sorted(required)} scipy ignores them and only '
+            f'emits a RuntimeWarning, which is silenced here: radius 22.01 '
+            f'-> 26.14 mm with the interval [21, 23] under method="BFGS"',
+            construct='method that ignores bounds'))
+    return res
+
+
+RULES = [bounds_honoured, index_edit, c17_coating_media, c01_init_stores, c01_pickup, operand_chain, apply_result, push_before_run, undo_updates, merit, scale_inverse,
          get_set_symmetry, var_dispatch, bounds_units]
